@@ -95,6 +95,16 @@ func c03Run(cfg Cfg, setup []string, src string) c03Obs {
 }
 
 func c03Input(r *fw.Rand) (string, string) {
+	if r.P(1, 150) {
+		// text handed back that contains a guarded construct (parentheses, array, call, dict) with
+		// something that emits code in front of a deeply nested chain: whatever depth the parser
+		// gives up at, nothing of it may stay behind
+		n := fw.PickT(r, []int{60, 110, 150, 300, 483, 700, 1200})
+		chain := strings.Repeat("(", n) + "1" + strings.Repeat(r.Pick([]string{"*1)", ")", "+x)"}), n)
+		head := r.Pick([]string{"3", "2d6 + 1", "x = 4; x", "[1, 2]"})
+		mid := r.Pick([]string{" + (a + %s) )", " + ((x = 1) + %s) )", ";\n[a, %s] )", " + f(d6, %s) ]", " + {'k': %s} }", " * (d20 + %s", " + `{d6}{%s}` )"})
+		return head + fmt.Sprintf(mid, chain), "deep-tail"
+	}
 	if r.P(1, 400) {
 		// long programs with many instructions per byte, followed by tails of every length: what
 		// the compiler accepts must not depend on how much text follows
